@@ -793,6 +793,7 @@ func (t *thread) shiftScript() {
 	t.numOps = 0
 	t.scriptOff = 0
 	t.scriptIdx++
+	t.lastCodeSep = 0
 	t.earlyReturnAfterGenesis = false
 }
 
